@@ -4,8 +4,9 @@ Decided: a rule is matched against all four selector groups, conjunctively, and 
 selector looks at every field (R1); holiday selectors see only, and the right, context
 calendar, shifted by the rule's offset (R2); time spans are projected through every field that
 carries meaning (R3); the midnight spill is cut at 24:00 and shifted by exactly one day (R4);
-overlapping time spans of one rule are merged keeping the farther end (R5).
-Not decided: selector arithmetic (steps, nth, offsets, wrapping, leap days, Easter, ISO weeks),
+overlapping time spans of one rule are merged keeping the farther end (R5); the nth-of-month
+index expressions are ceil(d/7)-1 and ceil((n-d+1)/7)-1 on their whole finite domain (R6).
+Not decided: selector arithmetic (steps, offsets, wrapping, leap days, Easter, ISO weeks),
 overlay of normal/additional/closed/fallback rules - values.
 """
 
@@ -179,3 +180,60 @@ def run(ctx, prog, res):
     r5 = res.rule("C01.R5", "overlapping time spans of one rule are merged into their union: where ranges sorted by start are merged, the farther end is kept")
     merge.check(prog, r5, [lib.OH], "C01.R5")
     r5.floor(2)
+
+    # R6 -------------------------------------------------------------------------------------
+    r6 = res.rule("C01.R6", "nth-of-month positions: a day d of a month with n days is the ceil(d/7)-th weekday of its kind from the start and the ceil((n-d+1)/7)-th from the end; the index expressions into nth_from_start / nth_from_end (extracted from MIR) are evaluated for every d in 1..=n, n in 28..=31 (exhaustive), and day, month length and weekday are taken from the same (offset-shifted) date")
+    import terms
+    wf = prog.impl_method_one("opening_hours::filter::date_filter::DateFilter", "filter", self_adt=DAY + "WeekDayRange")
+    found = {}
+    date_args = set()
+    for bb, b in wf.live_blocks():
+        for st in b["stmts"]:
+            if st["k"] != "assign" or st["rv"]["k"] not in ("use", "ref"):
+                continue
+            pl = st["rv"]["pl"] if st["rv"]["k"] == "ref" else st["rv"]["op"].get("pl")
+            if not pl:
+                continue
+            ix = [x for x in pl["p"] if isinstance(x, dict) and "ix" in x]
+            if not ix:
+                continue
+            base = flow.shape(wf, pl["l"])
+            m = re.search(r"nth_from_(start|end)", base)
+            if not m:
+                continue
+            found.setdefault(m.group(1), []).append((flow.shape(wf, ix[0]["ix"], depth=14), st))
+    want = {"start": lambda d, n: (d + 6) // 7 - 1, "end": lambda d, n: (n - d + 1 + 6) // 7 - 1}
+    for side in ("start", "end"):
+        exprs = found.get(side, [])
+        if not exprs:
+            r6.anchor_missing("an index into WeekDayRange::Fixed.nth_from_%s in its DateFilter::filter" % side)
+            continue
+        for sh, st in exprs:
+            try:
+                tree = terms.parse(sh)
+                is_day = lambda nd: nd[0] == "app" and nd[1].endswith("::day") and len(nd[2]) == 1
+                is_len = lambda nd: nd[0] == "app" and nd[1].endswith("count_days_in_month") and len(nd[2]) == 1
+                for nd in terms.leaves(tree, lambda nd: is_day(nd) or is_len(nd)):
+                    date_args.add(repr(nd[2][0]))
+                bad = None
+                n_eval = 0
+                for n in (28, 29, 30, 31):
+                    for d in range(1, n + 1):
+                        got = terms.evaluate(tree, lambda nd: d if is_day(nd) else n if is_len(nd) else None)
+                        n_eval += 1
+                        if got != want[side](d, n) and bad is None:
+                            bad = (d, n, got, want[side](d, n))
+                r6.check(bad is None, {"table": "nth_from_" + side, "index": sh, "evaluated": n_eval, "agrees_with": "ceil(d/7)-1" if side == "start" else "ceil((n-d+1)/7)-1"}, "C01.R6:nth_from_%s" % side,
+                         "the index into nth_from_%s, %s, is %s for day %s of a %s-day month; the %s weekday of its kind is position %s" % ((side, sh) + ((bad[2], bad[0], bad[1], "%d." % (bad[3] + 1), bad[3]) if bad else ("", "", "", "", ""))), lib.where_of(wf, st))
+            except terms.TermError as e:
+                r6.fail("C01.R6:nth_from_%s:unmodelled" % side, "the index into nth_from_%s is computed by an expression outside the modelled arithmetic (%s): %s" % (side, e, sh), lib.where_of(wf, st))
+    # weekday membership uses the same date
+    wd = [flow.shape(wf, t["args"][0], depth=10) for _, t in wf.calls() if flow.call_name(t).endswith("Datelike::weekday") or flow.call_name(t).endswith("::weekday")]
+    for w in wd:
+        try:
+            date_args.add(repr(terms.parse(w)))
+        except terms.TermError:
+            date_args.add(w)
+    r6.check(len(date_args) == 1 and wd, {"day_month_length_weekday_taken_from": sorted(date_args)}, "C01.R6:same-date",
+             "day of month, month length and weekday are not all taken from the same date: %s" % sorted(date_args), lib.where_of(wf))
+    r6.floor(3)
